@@ -11,6 +11,7 @@ CONSTANTS
   WithAux = FALSE
   MinCalls = 0
   WithAsm = TRUE
+  WithRefusals = FALSE
   OldChunkIndex <- OldChunkIndexTrue
 INVARIANTS WellFormedInv
 CHECK_DEADLOCK FALSE
